@@ -285,7 +285,7 @@ func init() {
 			"all sizes are non-negative",
 		},
 		Builds:      func(string) []string { return []string{"checkptr"} },
-		NumCases:    func(tier, build string) int { return vf.Tiered(tier, 6000, 3000000) },
+		NumCases:    func(tier, build string) int { return vf.Tiered(tier, 20000, 3000000) },
 		Floor:       func(tier string) int { return vf.Tiered(tier, 500, 50000) },
 		CaseTimeout: 30 * time.Second,
 		Run:         runC10,
